@@ -16,6 +16,7 @@ for d in "$VERIF"/seeded/$PAT/; do
   [ "$id" = "C19-E" ] && nomiri=""
   [ "$id" = "C19-P" ] && nomiri=""
   [ "$id" = "C19-U" ] && nomiri=""
+  [ "$id" = "C19-X" ] && nomiri=""
   # C19-U: the agent volunteered a hook site inside the race window; the regression uses the
   # variant without it
   pf="$d/patch.diff"; [ -f "$d/patch-nohook.diff" ] && pf="$d/patch-nohook.diff"
